@@ -206,6 +206,14 @@ def run (idx : Nat → Nat) : St → List Nat → St × List (Nat × Ev)
 
 def St.allTerminal (s : St) : Bool := s.cs.all Caller.terminal
 
+
+/-- nobody can move: some caller is not terminal and every caller's only step is a failed lock guard -/
+def St.deadlocked (idx : Nat → Nat) (s : St) : Bool :=
+  !s.allTerminal && (List.range s.cs.length).all (fun i =>
+    match step idx s i with
+    | some (ev, _) => ev == Ev.spin
+    | none => true)
+
 /-! ### program predicates (the quantifier of the property) -/
 
 /-- walks one segment with the with-stack it would have; `ok stack k` must hold at every nested
@@ -361,6 +369,30 @@ def rmvCount (k : Nat) : List (Nat × Ev) → Nat
   | e :: t => evRmv k e.2 + rmvCount k t
 
 def cachedN (cache : Nat → Option Nat) (k : Nat) : Nat := if (cache k).isSome then 1 else 0
+
+
+/-! ### provenance of values (complete values) -/
+
+def instrP (P : Nat → Nat → Prop) : Instr → Prop
+  | .getSet k (.ok v) => P k v
+  | _ => True
+
+def getterP (P : Nat → Nat → Prop) (k : Nat) : Getter → Prop
+  | .ok v => P k v
+  | .fail => True
+
+/-- every getter result still to be produced by the caller satisfies `P` -/
+def provC (P : Nat → Nat → Prop) (c : Caller) : Prop :=
+  (∀ ins ∈ c.cur, instrP P ins) ∧ (∀ seg ∈ c.rest, ∀ ins ∈ seg, instrP P ins) ∧
+  match c.pc with
+  | .gsAcqR k g => getterP P k g
+  | .gsChk1 k g => getterP P k g
+  | .gsRelR k g => getterP P k g
+  | .gsAcqW k g => getterP P k g
+  | .gsChk2 k g => getterP P k g
+  | .gsPop k g => getterP P k g
+  | .gsSwB k v => P k v
+  | _ => True
 
 /-! ### DiskCacher.get_set over a file system modelled as a map key ↦ bytes -/
 
